@@ -23,6 +23,9 @@ def match(known, prop, rule, tmin, res, run):
         probes = res.get("probes", {})
         if any(probes.get(p, 0) == 0 for p in kf.get("cause_probes", [])):
             continue
+        anyp = kf.get("cause_probes_any", [])
+        if anyp and all(probes.get(p, 0) == 0 for p in anyp):
+            continue
         cfg_ok = True
         for k, v in kf.get("config", {}).items():
             if tmin["config"].get(k) != v:
